@@ -4,6 +4,8 @@ package agent
 
 import (
 	"github.com/postalsys/muti-metroo/internal/flood"
+	"github.com/postalsys/muti-metroo/internal/identity"
+	"github.com/postalsys/muti-metroo/internal/protocol"
 	"github.com/postalsys/muti-metroo/internal/routing"
 )
 
@@ -13,3 +15,9 @@ func (a *Agent) VerifFlooder() *flood.Flooder { return a.flooder }
 
 // VerifRouteManager exposes the agent's routing manager.
 func (a *Agent) VerifRouteManager() *routing.Manager { return a.routeMgr }
+
+// VerifHandleRouteAdvertise runs the agent's own ROUTE_ADVERTISE handler on a
+// frame received from peerID.
+func (a *Agent) VerifHandleRouteAdvertise(peerID identity.AgentID, frame *protocol.Frame) {
+	a.handleRouteAdvertise(peerID, frame)
+}
